@@ -1034,10 +1034,9 @@ class _Glue:
         return p
 
 
-@RS.rule('C03.R13', 'K-PASS', 'the value of $((...)) is the evaluator\'s: in arith::expand (and in every function that hands an expression to '
-         'yash_arith) each path that returns without an error passes yash_arith::eval(_with_config), the returned phrase derives from '
-         'its result, and no yash_arith Value is made from anything else - no fast path (plain number, empty text, single name) in front '
-         'of or behind the evaluator')
+@RS.rule('C03.R13', 'K-PASS', 'the value of $((...)) is the evaluator\'s: every error-free path of arith::expand (and of any other caller of '
+         'yash_arith) passes yash_arith::eval, the returned phrase derives from its result, and no Value is made from anything else '
+         '(no fast path for a plain number, an empty text, a single name)')
 def r13(cx):
     F = cx.F
     sig = F.fns.get(EVALS[0]) or F.fns.get(EVALS[1])
@@ -1133,9 +1132,8 @@ def r13(cx):
     cx.floor(n_defs, 2, 'definitions of locals holding the evaluator\'s value type in the glue code')
 
 
-@RS.rule('C03.R14', 'K-CALLERS', 'the caller side of yash-arith (the source files of the functions that call yash_arith::eval, i.e. '
-         'expansion::initial::arith) converts no text to a number itself: every numeral of an expression or of a variable value is read '
-         'by the evaluator\'s one constant parser (R7)')
+@RS.rule('C03.R14', 'K-CALLERS', 'the caller side of yash-arith (source files of the callers of yash_arith::eval: expansion::initial::arith) '
+         'converts no text to a number itself: every numeral is read by the evaluator\'s one constant parser (R7)')
 def r14(cx):
     F = cx.F
     G = _Glue(F)
